@@ -138,6 +138,7 @@ ENCODE_CONTRACT(SPEC_UNRESERVED)
 struct mc_rec { uint8_t c; const uint8_t *s; size_t len; size_t res; };
 struct mc_rec g_mc[MC_MAX];
 size_t g_mc_n;
+bool g_mc_on; /* switches the clauses about the search log on (enforcing harness) */
 #ifdef VERIF_URI_MEMCHR_MODEL
 void *memchr(const void *s, int c, size_t n) {
     __CPROVER_assert(n == 0 || __CPROVER_r_ok(s, n), "memchr: the searched range is readable");
